@@ -1161,6 +1161,11 @@ fn _normalize_attribute(text: StrSpan, buffer: &mut TextBuffer, ctx: &mut Contex
         let c = stream.curr_byte_unchecked();
 
         if c != b'&' {
+            // A literal `<` can only get here via an entity value.
+            if c == b'<' {
+                return Err(Error::InvalidAttributeValue(stream.gen_text_pos()));
+            }
+
             stream.advance(1);
             buffer.push_from_attr(c, stream.curr_byte().ok());
             continue;
